@@ -396,6 +396,45 @@ static void thread_storage(void) {
   del(t);
 }
 
+
+/* a type with its own allocator: objects come from a fixed pool, and the deallocator finds the slot again from what
+   the object itself says (its type and a stored slot number) -- the object it is handed is still a whole object */
+struct Pooled { int64_t slot; int64_t value; };
+static char pool_mem[8][sizeof(struct Header) + sizeof(struct Pooled)];
+static int pool_used[8];
+static long pool_released, pool_confused;
+static var Pooled_Alloc(void);
+static void Pooled_Dealloc(var self);
+static var Pooled = Cello(Pooled, Instance(Alloc, Pooled_Alloc, Pooled_Dealloc));
+static var Pooled_Alloc(void) {
+  for (int i = 0; i < 8; i++) {
+    if (!pool_used[i]) {
+      pool_used[i] = 1;
+      memset(pool_mem[i], 0, sizeof pool_mem[i]);
+      struct Pooled* p = header_init(pool_mem[i], Pooled, AllocHeap);
+      p->slot = i;
+      return p;
+    }
+  }
+  return NULL;
+}
+static void Pooled_Dealloc(var self) {
+  struct Pooled* p = self;
+  if (type_of(self) != Pooled || p->slot < 0 || p->slot >= 8 || !pool_used[p->slot] || (var)(pool_mem[p->slot] + sizeof(struct Header)) != self) { pool_confused++; return; }
+  pool_used[p->slot] = 0;
+  pool_released++;
+}
+static void pooled_objects(void) {
+  var held[6];
+  int n = 2 + (int)below(5);
+  for (int i = 0; i < n; i++) { held[i] = new(Pooled); ((struct Pooled*)held[i])->value = 10 * i + below(10); }
+  int64_t sum = 0;
+  for (int i = 0; i < n; i++) { sum += ((struct Pooled*)held[i])->value; }
+  for (int i = 0; i < n; i++) { if (i % 2) { del(held[i]); } else { var raw = held[i]; del(raw); } }
+  int in_use = 0; for (int i = 0; i < 8; i++) { in_use += pool_used[i]; }
+  OUT("pooled objects: %d made, sum %" PRId64 ", released so far %ld, slots in use %d, confused %ld", n, sum, pool_released, in_use, pool_confused);
+}
+
 static void files(const char* dir_tag) {
   char path[128]; snprintf(path, sizeof path, "c18-%s.tmp", dir_tag);
   var f = new(File, $S(path), $S("w+"));
@@ -423,7 +462,7 @@ int main(int argc, char** argv) {
   int rounds = 3 + (int)below(3);
   for (int i = 0; i < rounds; i++) {
     OUT("--- round %d", i);
-    sequences(); maps(); strings_and_formats(); exceptions(); values_and_types(); user_types(); embedded_strings(); thread_storage(); files(tag);
+    sequences(); maps(); strings_and_formats(); exceptions(); values_and_types(); user_types(); embedded_strings(); thread_storage(); pooled_objects(); files(tag);
   }
   OUT("done");
   return 0;
